@@ -96,11 +96,18 @@ pub fn judge(tree: &E, other: &E) -> Verdict {
             // (c) every embedded epoch lies between the clock readings around the call
             match sx::read_all(prog) {
                 Ok(forms) => {
-                    for e in embedded_epochs(&forms) {
-                        if e < t0 || e > t1 {
+                    let eps = embedded_epochs(&forms);
+                    for e in &eps {
+                        if *e < t0 || *e > t1 {
                             epochs_ok = false;
                             epoch_msg = format!("embedded second {e} is outside the compile call [{t0}, {t1}]");
                         }
+                    }
+                    // the shape of the program is a function of the tree alone: one reference second per time test
+                    let src = if std::ptr::eq(x, &x2) { other } else { tree };
+                    let want = src.leaves().iter().filter(|l| matches!(l, E::T(Tst::Time(..)))).count();
+                    if eps.len() != want {
+                        return Verdict::Fail(format!("{src:?}: {want} time tests in the tree but {} reference seconds in the program (its shape depends on something else than the tree, e.g. on the clock)", eps.len()));
                     }
                 }
                 Err(e) => return Verdict::Fail(format!("program does not read: {e}")),
@@ -308,6 +315,58 @@ pub fn judge_history(steps: &[Step]) -> Verdict {
     Verdict::Pass { nt: crossed && after_failure, class: "history with the clock advancing between compile calls" }
 }
 
+/// Time tests whose age lies within a few units of the current time since the epoch, compiled in
+/// several consecutive seconds: apart from the embedded second the program must stay the same.
+pub fn near_now_part(st: &mut Stats) {
+    let opts = RunOptions::default();
+    let start = now_secs();
+    let mut trees: Vec<E> = vec![];
+    for u in TUnit::ALL {
+        for d in -2i64..=4 {
+            let n = (start / u.secs()) as i64 + d;
+            for c in [Cmp::Gt, Cmp::Eq, Cmp::Lt] {
+                for w in [Which::A, Which::M] {
+                    trees.push(E::and(E::T(Tst::Time(w, c, n.max(0) as u64, u)), E::A(Act::Print)));
+                }
+            }
+        }
+    }
+    let compile_all = |trees: &[E]| -> Vec<Result<String, String>> {
+        trees
+            .iter()
+            .map(|t| {
+                let x = to_ast(t);
+                match catch(|| compile(&x, &opts).map(|c| c.scheme("/dev/x"))) {
+                    Ok(Ok(p)) => Ok(normalise(&p)),
+                    Ok(Err(e)) => Err(format!("error: {e}")),
+                    Err(p) => Err(format!("panic: {p}")),
+                }
+            })
+            .collect()
+    };
+    let first = compile_all(&trees);
+    let mut bad: Vec<Option<String>> = vec![None; trees.len()];
+    for round in 1..=4 {
+        let t = now_secs();
+        while now_secs() == t {
+            std::thread::sleep(std::time::Duration::from_millis(20));
+        }
+        let again = compile_all(&trees);
+        for i in 0..trees.len() {
+            if bad[i].is_none() && again[i] != first[i] {
+                bad[i] = Some(format!("{:?}: compiled at second {start} and again {round} s later, the programs differ in more than the embedded second\nfirst: {:?}\nlater: {:?}", trees[i], first[i], again[i]));
+            }
+        }
+    }
+    for (i, t) in trees.iter().enumerate() {
+        let v = match &bad[i] {
+            Some(m) => Verdict::Fail(m.clone()),
+            None => Verdict::Pass { nt: true, class: "age within a few units of the time since the epoch, compiled in 5 consecutive seconds" },
+        };
+        st.record(&v, stable_hash(&(i, "near-now")), true, || json!({"kind": "near-now", "tree": term::encode_expr(t), "compiled_at": start}));
+    }
+}
+
 fn history_json(steps: &[Step]) -> Value {
     json!({"kind": "history", "steps": steps.iter().map(|s| match s { Step::NextSecond => json!("next-second"), Step::Compile(e) => json!(term::encode_expr(e)) }).collect::<Vec<_>>()})
 }
@@ -363,6 +422,10 @@ pub fn run(ctx: &Ctx) -> Report {
         st
     });
     total.merge(hist);
+    let mut stn = Stats::new();
+    near_now_part(&mut stn);
+    stn.samples.truncate(1);
+    total.merge(stn);
     // (b) fresh processes
     let n = ctx.tier.pick(2_000usize, 30_000usize);
     let trees = sample_values(ctx.seed, "C15-cross", 0, n, &resource_rich());
@@ -401,7 +464,7 @@ pub fn run(ctx: &Ctx) -> Report {
     total.samples.truncate(6);
     Report {
         stats: total,
-        rule: "random expressions biased to 8..40 distinct matchers/printers (so that hash-table iteration order would show). (a) in one process: parsing the text twice gives equal results; compiling e1, an unrelated e2, then e1 again gives byte-identical programs (embedded epoch normalised) and equal destination tables; (b) the same texts (plus near-duplicates: other blanks inside quotes, formats that are prefixes of one another, strings with quotes/backslashes) are parsed and compiled in three fresh processes (fresh hash seeds), each visiting them in a different order (reversed, strided), and the canonical records must be identical to this process's; (c) every wall-clock second embedded by a time test lies between clock readings taken around the compile call, also in histories of compile calls on one thread in which earlier calls fail after a time test was emitted and the wall clock moves into the next second in between (32 such histories in the quick tier). Non-trivial: >=8 matcher/printer requests. Distinct: by (tree pair) / input text.".into(),
+        rule: "random expressions biased to 8..40 distinct matchers/printers (so that hash-table iteration order would show). (a) in one process: parsing the text twice gives equal results; compiling e1, an unrelated e2, then e1 again gives byte-identical programs (embedded epoch normalised) and equal destination tables; (b) the same texts (plus near-duplicates: other blanks inside quotes, formats that are prefixes of one another, strings with quotes/backslashes) are parsed and compiled in three fresh processes (fresh hash seeds), each visiting them in a different order (reversed, strided), and the canonical records must be identical to this process's; (c) every wall-clock second embedded by a time test lies between clock readings taken around the compile call, also in histories of compile calls on one thread in which earlier calls fail after a time test was emitted and the wall clock moves into the next second in between (32 such histories in the quick tier); the number of reference seconds in a program equals the number of time tests of its tree; time tests whose age is within -2..+4 units (s, min, h, d) of the current time since the epoch are compiled in five consecutive seconds and must give the same program up to the embedded second. Non-trivial: >=8 matcher/printer requests. Distinct: by (tree pair) / input text.".into(),
         assumptions: vec!["the embedded second is recognised as the first operand of (- N (atime|ctime|mtime))".into()],
         exhaustive: false,
     }
